@@ -15,11 +15,12 @@ Definition ropsR2 : kops R R2 :=
     d2 (fun v => sqrt (d2 v v)).
 Definition sym2 (a b c : R) (x : R2) : R2 := (a * fst x + b * snd x, b * fst x + c * snd x).
 
+Definition nonnegR (x : R) : Prop := 0 <= x.
 Lemma d2_nonneg v : 0 <= d2 v v.
 Proof. unfold d2. nra. Qed.
 
-Lemma klaws_R2 a b c : klaws ropsR2 (sym2 a b c) (fun x => 0 <= x).
-Proof.
+Lemma klaws_R2 a b c : klaws ropsR2 (sym2 a b c) nonnegR.
+Proof. unfold nonnegR.
   constructor; cbn [ropsR2 c0 c1 cadd cmul csub copp cdiv cinv cconj cgtb vzero vadd vsub vscale vdiv vdot vnrm];
     unfold d2, sym2; intros; cbn [fst snd]; try reflexivity; try (unfold Rdiv; ring).
   - exact Rfield.
@@ -33,10 +34,10 @@ Proof.
 Qed.
 
 (* so the theorems apply: e.g. a full run on [[2,1],[1,3]] from (1,0) *)
-Example lanczos_R2_run : exists w, lanczos_facts ropsR2 (sym2 2 1 3) (fun x => 0 <= x) (1/10000000) (1, 0) 2 5 w.
+Example lanczos_R2_run : exists w, lanczos_facts ropsR2 (sym2 2 1 3) nonnegR (1/10000000) (1, 0) 2 5 w.
 Proof. apply lanczos_run.
   - apply klaws_R2.
-  - lra.
+  - unfold nonnegR. lra.
   - cbn. unfold d2; cbn [fst snd]. replace (1 * 1 + 0 * 0) with 1 by ring. rewrite sqrt_1. lra.
   - lia.
   - lia.
